@@ -817,6 +817,36 @@ def multi_library(rep, never, d, st, nlib=14):
         rep.violation("multi_library", json.dumps(dict(kind="multi", program=prog, what="a call did not reach the library named in its extern declaration",
                       observed="rc=%d expected=%s got=%s stderr=%s" % (rc, want, got, err[-400:]))), True)
 
+def bool_results(rep, never, d, st):
+    """a C `bool` result defines only the low 8 bits of the return register: callees compiled (-O2) so that the flag is made with
+    setcc after a call that left non-zero upper bits in eax; both truth values, through `!` and through a record member"""
+    src = os.path.join(d, "boolres.c")
+    open(src, "w").write("""#include <stdbool.h>
+#include <string.h>
+__attribute__((noinline)) int noise(int x) { return x * 0x01010101 + 0x7f7f7f00; }
+bool is_five(int x) { return noise(x) == noise(5); }
+bool same_str(const char * a, const char * b) { return strcmp(a, b) == 0; }
+bool not_zero(long x) { return noise((int)x) != noise(0); }
+""")
+    lib = os.path.join(d, "libboolres.so")
+    rc, out = run(["gcc", "-w", "-O2", "-shared", "-fPIC", "-o", lib, src])
+    if rc != 0:
+        raise RuntimeError("bool callee does not compile: " + out[-400:])
+    prog = ('extern "%s" func is_five(x : int) -> bool\nextern "%s" func same_str(a : string, b : string) -> bool\nextern "%s" func not_zero(x : long) -> bool\n' % (lib, lib, lib) +
+            "func b(v : bool) -> int { v ? 1 : 0 }\nfunc main() -> int\n{\n    print(b(is_five(3))); print(b(is_five(5))); print(b(!is_five(3)));\n"
+            "    print(b(same_str(\"abc\", \"abd\"))); print(b(same_str(\"abc\", \"abc\"))); print(b(not_zero(0L))); print(b(not_zero(7L)));\n"
+            "    print(b(is_five(4) || same_str(\"a\", \"b\"))); print(b(is_five(5) && !same_str(\"a\", \"b\")));\n    0\n}\n")
+    want = ["0", "1", "1", "0", "1", "0", "1", "0", "1"]
+    p = os.path.join(d, "boolres.nev")
+    open(p, "w").write(prog)
+    rc, out, err = run_never(never, p)
+    got = [l.strip() for l in out.split("\n") if l.strip()]
+    st["bool_result_calls"] = len(want)
+    if got != want or rc != 0:
+        st["fail_bad"] = st.get("fail_bad", 0) + 1
+        rep.violation("bool_results", json.dumps(dict(kind="boolres", program=prog, callee=open(src).read(), what="a C bool result did not come back as the declared Never value (only the low 8 bits of the return register are defined)",
+                      observed="rc=%d expected=%s got=%s stderr=%s" % (rc, want, got, err[-300:]))), True)
+
 # ------------------------------------------------------------------ the whole correspondence
 def run_correspondence(rep, tier, seed):
     info = buildimpl.build("asan")
@@ -1005,6 +1035,7 @@ def failure_paths(rep, never, d, lib, fails, progs):
     st["fail_extra"] = len(extra)
     st["fail_missing_ok"] = 0
     multi_library(rep, never, d, st)
+    bool_results(rep, never, d, st)
     for what, p, s in extra:
         rc, out, err = run_never(never, p)
         got = [l.rstrip("\r") for l in out.split("\n") if l.strip() != ""]
